@@ -49,6 +49,46 @@ PROPS = {
         assumptions=SIM_ASSUME + ["duplicate identities are not generated (the statement is silent on them)", "PLAIN and CURVE greetings count as 'known mechanism' and are expected to be admitted"],
         exhaustive={"quick": True, "thorough": True},
     ),
+    "C07": dict(
+        built=True, level="exploration", design_ref="4/C07",
+        technique="runtime monitor: frame-exact comparison of API results and reference-decoded wire taps for REQ and REP facing scripted peers over the full payload-shape x routing-prefix grid, plus degenerate requests",
+        rule="payloads = all 340 shapes of 1..4 frames with sizes {0,5,256,70000}; routing prefixes = all 40 lists of 0..3 identity frames of {1,5,255} bytes (quick: 32 of them incl. none/all three-hop, thorough: all 40); directions request and reply; degenerate requests (delimiter last, single frame, single empty frame, no delimiter). Every case is non-trivial (a real request/reply round trip); distinct by (prefix, request shape, reply shape)",
+        text="The envelope rules are checked frame-for-frame on every executed round trip of the stated finite shape grid; shapes outside the grid are not explored.",
+        note="trusted: reference codec for reading the taps",
+        assumptions=SIM_ASSUME + ["requests without any empty frame are undefined by the statement: only 'no panic, no zero-frame message' is asserted for them"],
+    ),
+    "C08": dict(
+        built=True, level="exploration", design_ref="4/C08",
+        technique="runtime monitor: every {send,recv} call sequence up to a bound on REQ and REP compared step by step with a reference lock-step state machine and with the wire taps; seeded interleavings of 1..8 concurrent scripted clients with a tagged-reply history checker",
+        rule="all call sequences over {send,recv} up to length 6 (quick) / 8 (thorough) on REQ (scripted REP answering immediately / after the recv parked / never; 1 or 2 peers) and on REP (two scripted clients, request available or arriving after the recv parked), plus seeded concurrent histories of 1..8 clients x 4 requests with byte-level release schedules; non-trivial = every sequence (each contains at least one call); distinct by sequence/mode or seed; interleaving ids = hash of the scheduler's action sequence",
+        text="Sequences are enumerated exhaustively to the bound and each API result, returned message and tap delta is compared with the reference machine; concurrency is explored by seeded schedules, not exhaustively.",
+        note="trusted: reference state machine in harness/src/props/c08.rs",
+        assumptions=SIM_ASSUME + ["a second recv on REP before replying is exercised for crash-freedom only (statement does not define it)"],
+    ),
+    "C09": dict(
+        built=True, level="exploration", design_ref="4/C09",
+        technique="runtime monitor: tagged-message history checker over ROUTER recv results and per-connection wire taps (identity labelling, routing, unknown and gone targets) under seeded byte-release schedules",
+        rule="1..6 scripted DEALER/REQ peers with auto, 1-byte, 16-byte, 255-byte and NUL-containing identities, 3 tagged messages each released in seeded byte increments; then sends to every live peer, to a never-seen identity and to a peer whose connection ended (EOF / reset / mid-frame) after the socket observed it; non-trivial = runs with >= 2 peers; distinct by seed",
+        text="Labelling and routing are checked on every delivery/send of the seeded runs; schedules are sampled.",
+        note="trusted: tag checksum identifies the connection a payload was fed on",
+        assumptions=SIM_ASSUME + ["single-frame send on ROUTER (an assert! in the library) is outside the statement and not issued"],
+    ),
+    "C10": dict(
+        built=True, level="exploration", design_ref="4/C10",
+        technique="runtime monitor: wire-tap growth judged at the instant send returns (exactly one peer, complete reference encoding), rotation-window and late-joiner checks, credit-based back-pressure with partial writes",
+        rule="PUSH, DEALER, REQ with 0..6 scripted peers joining at seeded times, 6n+6 sends of 6 message shapes, seeded partial-write limits and withheld write credit; non-trivial = runs with 0 or >= 2 peers; distinct by seed",
+        text="Every successful send of the run is judged at return time against the taps; rotation is checked over every window of n sends on a stable peer set.",
+        note="trusted: in-memory pipe credit model for back-pressure",
+        assumptions=SIM_ASSUME,
+    ),
+    "C11": dict(
+        built=True, level="exploration", design_ref="4/C11",
+        technique="runtime monitor: reference multiset-prefix model compared with wire taps at quiescent points after every history step; XPUB hand-over history check",
+        rule="all subscribe/unsubscribe/garbage histories up to length 3 (quick) / 4 (thorough) over 7 topics + 5 garbage kinds for one subscriber on PUB and XPUB (exhaustive), seeded random histories of length 30 for 1..5 subscribers; after every step all 7 probe first-frames x {1,2 frames} are published; non-trivial = histories of length >= 2; distinct by history; states = distinct subscription multisets reached",
+        text="Exhaustive over short histories of the stated alphabet, sampled beyond; each delivery decision compared with the model.",
+        note="trusted: reference model in harness/src/props/c11.rs",
+        assumptions=SIM_ASSUME + ["pipes accept all writes in this property (back-pressure is C12)", "whether XPUB hands malformed subscription messages to the application is not asserted"],
+    ),
     "C19": dict(
         built=True, level="exploration", design_ref="4/C19",
         technique="runtime differential monitor: library parser vs independent reference parser over exhaustive small-alphabet strings, grammar-based and random Unicode strings; panic, accept/reject, classification and round-trip oracles",
@@ -109,4 +149,4 @@ def write_manifest(path):
 
 
 HOOK_COMMITS = ["c9656b6"]
-FIX_COMMITS = ["48acad6", "f3d84e9", "be9d015", "f1a8fb7", "1cfb825"]
+FIX_COMMITS = ["48acad6", "f3d84e9", "be9d015", "f1a8fb7", "1cfb825", "8c4f97d"]
